@@ -19,6 +19,7 @@ def run(ctx):
     specs += gen.gen_many(ctx.seed, n // 2, dict(CFG, p_market=0.5, p_window=0.8, window_kinds=['inside', 'left', 'right']), 'c18g_')
     for sp in specs:
         sp['opts']['n_inj'] = 3 if ctx.tier == 'quick' else 8
+    specs = ctx.specs(specs)
     res = C.run_impl('prices', specs)
     exprs, owners = [], []
     for sp, o in zip(specs, res):
